@@ -21,8 +21,8 @@ CONSTANTS MaxStages, Deviations
 Kinds == {"proc", "alias"}
 Faults == {"none", "redirect_unopenable", "not_found", "alias_raises", "consumer_exits_early", "input_missing"}
 
-VARIABLES shape,      \* [n, kinds, redirect (stage with an output redirect or 0), captured, fault, at (stage the fault hits)]
-          pc,         \* "idle" | "build" | "wire" | "start" | "drain" | "close" | "done"
+VARIABLES shape,      \* [n, kinds, redirect (stage with an output redirect or 0), captured, bg (trailing &), fault, at (stage the fault hits)]
+          pc,         \* "idle" | "build" | "wire" | "start" | "drain" | "close" | "bgrelease" | "bgwait" | "done"
           i,          \* stage counter of the current phase
           owned,      \* set of resources the shell holds: <<kind, stage>>
           handlers,   \* "original" | "swapped"
@@ -30,7 +30,7 @@ VARIABLES shape,      \* [n, kinds, redirect (stage with an output redirect or 0
           res
 vars == <<shape, pc, i, owned, handlers, failed, res>>
 
-Shapes == UNION {[n : {n}, kinds : [1..n -> Kinds], redirect : 0..n, captured : BOOLEAN, fault : Faults, at : 1..n] : n \in 1..MaxStages}
+Shapes == UNION {[n : {n}, kinds : [1..n -> Kinds], redirect : 0..n, captured : BOOLEAN, bg : BOOLEAN, fault : Faults, at : 1..n] : n \in 1..MaxStages}
 \* the fault must make sense for the shape
 Sensible(s) ==
   /\ (s.fault = "redirect_unopenable" => s.redirect = s.at)
@@ -39,8 +39,9 @@ Sensible(s) ==
   /\ (s.fault = "consumer_exits_early" => s.n >= 2 /\ s.at = s.n)
   /\ (s.fault = "input_missing" => s.at = 1)
   /\ (s.fault = "none" => s.at = 1)
+  /\ (s.bg => ~s.captured)            \* `$(cmd &)` is not a shape: a background pipeline is not captured
 
-Init == shape = [n |-> 1, kinds |-> <<"proc">>, redirect |-> 0, captured |-> FALSE, fault |-> "none", at |-> 1]
+Init == shape = [n |-> 1, kinds |-> <<"proc">>, redirect |-> 0, captured |-> FALSE, bg |-> FALSE, fault |-> "none", at |-> 1]
         /\ pc = "idle" /\ i = 0 /\ owned = {} /\ handlers = "original" /\ failed = FALSE /\ res = [clean |-> TRUE, dev |-> ""]
 
 When(S) == IF pc = "idle" THEN S ELSE {}
@@ -68,28 +69,38 @@ Wire == /\ pc = "wire"
              ELSE /\ owned' = owned \cup {<<"pipeR", i>>, <<"pipeW", i>>} /\ i' = i + 1 /\ UNCHANGED pc
         /\ UNCHANGED <<shape, handlers, failed, res>>
 
-\* what stage k hands over to / shares with its child or thread once started: the shell's copies of
-\* the write end it writes to and of the read end it reads from are closed by the shell
-HandedOver(k) == {<<"pipeW", k>>, <<"pipeR", k - 1>>, <<"file", k>>}
-
+\* Starting a stage hands the child (or thread) its descriptors, but the shell keeps its own copies of
+\* every pipe end and redirect file until it closes them itself: the write end of connection k when
+\* stage k has finished (pipelines._prev_procs_done / PopenThread / ProcProxyThread close_writer - this
+\* is what lets stage k+1 see end-of-file), everything else in _close_prev_procs / _close_proc.
 Start == /\ pc = "start"
-         /\ IF i > shape.n THEN pc' = "drain" /\ i' = 1 /\ UNCHANGED <<owned, handlers, failed>>
+         /\ IF i > shape.n THEN pc' = (IF shape.bg THEN "bgrelease" ELSE "drain") /\ i' = 1 /\ UNCHANGED <<owned, handlers, failed>>
             ELSE IF shape.fault = "not_found" /\ shape.at = i
                    THEN \* stages 1..i-1 are running, the pipes are open: everything must go
                         /\ failed' = TRUE /\ pc' = "done" /\ i' = i /\ UNCHANGED handlers
                         /\ \/ ReleaseAll
                            \/ "Dev_NotFoundLeaksEarlierStages" \in Deviations /\ i > 1 /\ UNCHANGED owned
-                   ELSE /\ owned' = (owned \ HandedOver(i))
-                                    \cup {<<IF shape.kinds[i] = "proc" THEN "child" ELSE "thread", i>>}
-                                    \cup (IF i = shape.n /\ shape.captured THEN {<<"pump", i>>} ELSE {})
-                        /\ handlers' = IF i = shape.n THEN "swapped" ELSE handlers
+                   ELSE /\ owned' = owned \cup {<<IF shape.kinds[i] = "proc" THEN "child" ELSE "thread", i>>}
+                                          \cup (IF i = shape.n /\ shape.captured THEN {<<"pump", i>>} ELSE {})
+                        /\ handlers' = IF i = shape.n /\ ~shape.bg THEN "swapped" ELSE handlers
                         /\ i' = i + 1 /\ UNCHANGED <<pc, failed>>
          /\ UNCHANGED <<shape, res>>
 
-\* the stages end (normally, by raising, or because the consumer left); the shell reaps / joins them
+\* stage k can only end once its input can reach end-of-file: the shell no longer holds the write end
+\* of the connection in front of it (a consumer that exits early, or an alias that raises, does not wait)
+CanFinish(k) == k = 1 \/ <<"pipeW", k - 1>> \notin owned \/ shape.fault \in {"consumer_exits_early", "alias_raises"}
+
+\* the stages end one after the other (normally, by raising, or because the consumer left); as each
+\* producer ends the shell closes its copy of the write end behind it
 Drain == /\ pc = "drain"
-         /\ failed' = (shape.fault \in {"alias_raises", "consumer_exits_early"})
-         /\ pc' = "close" /\ UNCHANGED <<shape, i, owned, handlers, res>>
+         /\ IF i > shape.n
+              THEN /\ failed' = (shape.fault \in {"alias_raises", "consumer_exits_early"})
+                   /\ pc' = "close" /\ UNCHANGED <<i, owned>>
+              ELSE /\ CanFinish(i)
+                   /\ \/ owned' = owned \ {<<"pipeW", i>>}
+                      \/ "Dev_WriterKeptAfterProducerExit" \in Deviations /\ UNCHANGED owned
+                   /\ i' = i + 1 /\ UNCHANGED <<pc, failed>>
+         /\ UNCHANGED <<shape, handlers, res>>
 
 Close == /\ pc = "close"
          /\ \/ owned' = {} /\ handlers' = "original"
@@ -98,21 +109,48 @@ Close == /\ pc = "close"
          /\ pc' = "done" /\ UNCHANGED <<shape, i, failed>>
          /\ res' = [clean |-> owned' = {} /\ handlers' = "original", dev |-> IF owned' = {} THEN "" ELSE "Dev_EarlyExitLeavesProducer"]
 
-Next == Choose \/ Build \/ Wire \/ Start \/ Drain \/ Close
+(* A background pipeline (`a | b &`) is never drained or closed by the command that started it
+   (specs._run_specs returns at once): the shell gives up its own copies of the connecting pipe ends
+   whose users are child processes right away (pipelines._release_connecting_pipes) - otherwise the
+   consumer never sees end-of-file and the job never ends - and the job machinery reaps the children
+   when they exit.  Ends used by in-process stages (alias threads) are closed by those threads. *)
+UsedByChild(r) == \/ r[1] = "pipeW" /\ shape.kinds[r[2]] = "proc"
+                  \/ r[1] = "pipeR" /\ shape.kinds[r[2] + 1] = "proc"
+BgRelease == /\ pc = "bgrelease"
+             /\ \/ owned' = {r \in owned : ~UsedByChild(r)}
+                \/ "Dev_BackgroundKeepsConnectingPipes" \in Deviations /\ UNCHANGED owned
+             /\ pc' = "bgwait" /\ UNCHANGED <<shape, i, handlers, failed, res>>
+\* the job ends: every child whose input can reach end-of-file exits and is reaped; the alias threads close their ends
+\* the shell still holds a write end of stage k's input that nobody will close (a thread closes its own)
+Starved(k) == k > 1 /\ <<"pipeW", k - 1>> \in owned /\ UsedByChild(<<"pipeW", k - 1>>)
+BgWait == /\ pc = "bgwait"
+          /\ \/ owned' = {r \in owned : (r[1] \in {"child", "thread"} /\ Starved(r[2])) \/ (r[1] \in {"pipeR", "pipeW"} /\ UsedByChild(r))}
+             \/ \* nobody waits for the proxy threads of a background pipeline: the read end an alias stage reads
+                \* from, and the capture pipes of an alias that is the last stage, stay open in the shell
+                /\ "Dev_BackgroundAliasKeepsPipes" \in Deviations
+                /\ \E k \in 1..shape.n : shape.kinds[k] = "alias" /\ (k >= 2 \/ k = shape.n)
+                /\ owned' = {r \in owned : r[1] = "pipeR" /\ ~UsedByChild(r)}
+                             \cup (IF shape.kinds[shape.n] = "alias" THEN {<<"capR", shape.n>>, <<"capW", shape.n>>} ELSE {})
+          /\ pc' = "done" /\ UNCHANGED <<shape, i, handlers, failed>>
+          /\ res' = [clean |-> owned' = {}, dev |-> ""]
+
+Next == Choose \/ Build \/ Wire \/ Start \/ Drain \/ Close \/ BgRelease \/ BgWait
 Spec == Init /\ [][Next]_vars /\ WF_vars(Next)
 
 (* ---- judgement used by the trace specification -------------------------------------------- *)
 \* feat: the real scenario's features; clean: every snapshot after the runs equals the one before
 ObsDevEnabled(d, feat) ==
   CASE d = "Dev_NotFoundLeaksEarlierStages" -> feat.fault = "not_found" /\ feat.at >= 2
+    [] d = "Dev_BackgroundKeepsConnectingPipes" -> feat.form = "background" /\ feat.n >= 2
+    [] d = "Dev_BackgroundAliasKeepsPipes" -> feat.form = "background" /\ (feat.lastkind = "alias" \/ feat.aliasreader)
     [] OTHER -> FALSE
 Judge(feat, clean) == clean \/ \E d \in Deviations : ObsDevEnabled(d, feat) /\ ~clean
 
 (* ---- properties ---------------------------------------------------------------------------- *)
 Quiescent == pc = "done"
 LeavesNothing == Quiescent => owned = {} /\ handlers = "original"
-\* the shell never holds both ends of a pipe once both neighbouring stages run
-NoBothEndsAfterStart == pc = "drain" => \A k \in 1..shape.n : ~(<<"pipeR", k>> \in owned /\ <<"pipeW", k>> \in owned)
-OnlyRunningThingsWhileDraining == pc = "drain" => \A r \in owned : r[1] \in {"child", "thread", "pump", "capR", "capW", "pipeR", "pipeW"}
+\* once every stage has ended the shell holds no write end of a connecting pipe any more
+NoWriterAfterDrain == pc = "close" => \A k \in 1..shape.n : <<"pipeW", k>> \notin owned
+OnlyRunningThingsWhileDraining == pc = "drain" => \A r \in owned : r[1] \in {"child", "thread", "pump", "capR", "capW", "pipeR", "pipeW", "file"}
 Terminates == <>(pc = "done")
 =============================================================================
